@@ -56,20 +56,27 @@ Proof.
   rewrite (pack_header h (header_lt _ _ _ _ Hh Hg Hi)). reflexivity.
 Qed.
 
+(* closed comparisons of integer literals, whatever `simpl never` says *)
+Ltac eval_closed_eqb :=
+  repeat match goal with
+  | |- context [(Zpos ?a =? Zpos ?b)%Z] =>
+      let v := eval vm_compute in (Zpos a =? Zpos b)%Z in change ((Zpos a =? Zpos b)%Z) with v
+  end.
+
 Lemma bridge_pack_value fuel it (w : W) :
   gc_pack_value (E := E) fuel (obj_of it) w = lift_bytes (obj_of it) (pack_value it) w.
 Proof.
-  unfold gc_pack_value, obj_of, pack_value. py_unfold. cbn.
-  destruct (it_bits it =? 1)%Z eqn:E1.
-  { destruct (it_value it) as [z|b|]; cbn; [destruct (z =? 0)%Z|destruct b|]; reflexivity. }
-  unfold bytes_from_bits. rewrite E1.
-  Ltac val_cases it := destruct (it_signed it); destruct (it_value it) as [z|b|]; cbn; try reflexivity;
-    try (destruct (pack_int _ _ _); reflexivity).
-  destruct (it_bits it =? 8)%Z eqn:E8; [val_cases it|].
-  destruct (it_bits it =? 16)%Z eqn:E16; [val_cases it|].
-  destruct (it_bits it =? 32)%Z eqn:E32; [val_cases it|].
-  destruct (it_bits it =? 64)%Z eqn:E64; [val_cases it|].
-  reflexivity.
+  unfold gc_pack_value, obj_of, pack_value, bytes_from_bits. py_unfold. cbn.
+  destruct it as [g i b s v]. cbn [it_bits it_signed it_value it_group it_item].
+  (* the bit width: one of the five legal ones, or none of them - in whatever order the code tests them *)
+  destruct (Z.eq_dec b 1) as [->|N1]; [|destruct (Z.eq_dec b 8) as [->|N8]; [|destruct (Z.eq_dec b 16) as [->|N16];
+    [|destruct (Z.eq_dec b 32) as [->|N32]; [|destruct (Z.eq_dec b 64) as [->|N64]]]]].
+  1-5: eval_closed_eqb; destruct s; destruct v as [z|bb|]; cbn; try reflexivity;
+       try (destruct (z =? 0)%Z; reflexivity); try (destruct bb; reflexivity);
+       try (destruct (pack_int _ _ _); reflexivity).
+  rewrite (proj2 (Z.eqb_neq b 1) N1), (proj2 (Z.eqb_neq b 8) N8), (proj2 (Z.eqb_neq b 16) N16),
+          (proj2 (Z.eqb_neq b 32) N32), (proj2 (Z.eqb_neq b 64) N64).
+  destruct s; destruct v as [z|bb|]; reflexivity.
 Qed.
 
 Theorem bridge_pack fuel it (w : W) :
@@ -79,13 +86,17 @@ Proof.
   change (py_getattr (obj_of it) "group_id") with (PInt (it_group it)).
   change (py_getattr (obj_of it) "item_id") with (PInt (it_item it)).
   cbn [py_lt orb].
-  destruct ((it_group it <? 0)%Z || (255 <? it_group it)%Z) eqn:Hg; [reflexivity|].
-  cbn.
-  destruct ((it_item it <? 0)%Z || (4095 <? it_item it)%Z) eqn:Hi; [reflexivity|].
-  cbn.
+  (* the four range tests, however the code groups them *)
+  destruct (it_group it <? 0)%Z eqn:Hg1; destruct (255 <? it_group it)%Z eqn:Hg2;
+    destruct (it_item it <? 0)%Z eqn:Hi1; destruct (4095 <? it_item it)%Z eqn:Hi2;
+    repeat (progress (cbn; rewrite ?Hg1, ?Hg2, ?Hi1, ?Hi2)); try reflexivity.
+  repeat match goal with |- context [gc_pack_keyid fuel ?o w] =>
+    lazymatch o with obj_of _ => fail | _ => change o with (obj_of it) end end.
   rewrite bridge_pack_keyid by lia.
   destruct (build_header (it_group it) (it_item it) (it_bits it)) as [h|e] eqn:Hh; cbn.
-  - rewrite bridge_pack_value.
+  - repeat match goal with |- context [gc_pack_value fuel ?o w] =>
+      lazymatch o with obj_of _ => fail | _ => change o with (obj_of it) end end.
+    rewrite bridge_pack_value.
     destruct (pack_value it) as [v|e] eqn:Hv; cbn; [reflexivity|].
     destruct e; reflexivity.
   - rewrite (build_header_raise _ _ _ _ Hh). reflexivity.
